@@ -1,7 +1,7 @@
 (* Proofs.ImageBlk: the block <-> buffer transfers of datatype/imageblk move every voxel to the
    right place, for every geometry (C17). *)
 From DV Require Import Base.Prelude Base.WrapZ Model.Geometry Model.ROI Model.ImageBlk Proofs.Geometry Proofs.ROI.
-From Coq Require Import ZifyBool ZifyNat.
+From Coq Require Import ZifyBool ZifyNat Sorting.Sorted.
 Local Open Scope Z_scope.
 
 (* byte k of a buffer (0 outside) *)
@@ -301,7 +301,7 @@ Lemma block_xfer c g stride b data blk :
   (exists d', read_block c g stride data blk b = Ok d' /\ xfer_read_post c g stride b data blk d')
   /\ (exists b', write_block c g stride data blk b = Ok b' /\ xfer_write_post c g stride b data blk b').
 Proof.
-  destruct c as [[[kx ky] kz] v bg]. destruct g as [sh [[ox oy] oz] w h d]. destruct b as [[bx by_] bz].
+  destruct c as [[[kx ky] kz] v bg pat fx]. destruct g as [sh [[ox oy] oz] w h d]. destruct b as [[bx by_] bz].
   intros Hc Hg M Hst Hdl Hbl. pose proof (size3_pos _ Hg) as S3.
   unfold read_block, write_block, xfer_plan. rewrite (compute_transform_eq _ _ _ Hc Hg M).
   unfold xfer_read_post, xfer_write_post, in_range, bmin.
@@ -531,7 +531,7 @@ Lemma didx_inj c g stride p p' ch ch' : cfg_ok c -> geom_ok g -> stride_ok c g s
   in_geom g p -> in_geom g p' -> 0 <= ch < bpv c -> 0 <= ch' < bpv c ->
   didx c g stride (pminus p (goff g)) + ch = didx c g stride (pminus p' (goff g)) + ch' -> p = p' /\ ch = ch'.
 Proof.
-  destruct c as [[[kx ky] kz] v bg]. destruct g as [sh [[ox oy] oz] w h d].
+  destruct c as [[[kx ky] kz] v bg pat fx]. destruct g as [sh [[ox oy] oz] w h d].
   destruct p as [[x y] z], p' as [[x' y'] z'].
   intros (_ & _ & _ & Hv) (Ho & Hw & Hh & Hd) Hs.
   unfold stride_ok, px, py, pz in Hv, Ho, Hw, Hh, Hd, Hs. cbn [fst snd bsz bpv gshape goff gw gh gd] in Hv, Ho, Hw, Hh, Hd, Hs.
@@ -570,7 +570,7 @@ Qed.
 Lemma in_part_iff c g b p : cfg_ok c ->
   in_range (lo g (bsz c) b) (hi g (bsz c) b) p <-> (in_geom g p /\ block_of (bsz c) p = b).
 Proof.
-  destruct c as [[[kx ky] kz] v bg]. destruct b as [[bx by_] bz]. destruct p as [[x y] z].
+  destruct c as [[[kx ky] kz] v bg pat fx]. destruct b as [[bx by_] bz]. destruct p as [[x y] z].
   intros (Kx & Ky & Kz & _). unfold in_geom, in_range, lo, hi, block_of, px, py, pz in *; cbn [fst snd bsz] in *.
   pose proof (div_block_iff kx bx x ltac:(lia)) as Ix. pose proof (div_block_iff ky by_ y ltac:(lia)) as Iy.
   pose proof (div_block_iff kz bz z ltac:(lia)) as Iz.
@@ -626,14 +626,68 @@ Definition listed (b : pt) (bl : list pt) : bool := existsb (pt_eqb b) bl.
 Lemma data_len_ok_ext c g stride d d' : zlen d' = zlen d -> data_len_ok c g stride d -> data_len_ok c g stride d'.
 Proof. unfold data_len_ok. intros E H. destruct (gshape g); lia. Qed.
 
-(* GetVoxels over blocks that all meet the geometry: a voxel whose block is listed and stored gets
-   the stored byte, every other voxel keeps what the buffer held *)
-Lemma get_blocks_into_spec c g stride st : cfg_ok c -> geom_ok g -> stride_ok c g stride -> store_ok c st ->
+(* ---- background buffers ---- *)
+Lemma bg_voxel_len c : 0 <= bpv c -> zlen (bg_voxel c) = bpv c.
+Proof. intro H. unfold bg_voxel, zlen. rewrite map_length, seq_length. lia. Qed.
+
+Lemma nthZ_bg_voxel c ch : 0 <= ch < bpv c -> nthZ (bg_voxel c) ch = bg_at c ch.
+Proof.
+  intro H. unfold nthZ, bg_voxel. replace (ch <? 0) with false by lia.
+  rewrite (nth_indep _ 0%N (bg_at c 0)) by (rewrite map_length, seq_length; lia).
+  change (bg_at c 0) with ((fun k => bg_at c (Z.of_nat k)) 0%nat).
+  rewrite map_nth, seq_nth by lia. f_equal. lia.
+Qed.
+
+Lemma bg_tile_len c n : 0 <= bpv c -> 0 <= n -> zlen (bg_tile c n) = n * bpv c.
+Proof.
+  intros Hv Hn. unfold bg_tile. rewrite <- (Z2Nat.id n) at 2 by lia. generalize (Z.to_nat n) as k.
+  induction k as [|k IH]; [reflexivity|]. cbn [repeat concat]. unfold zlen in *. rewrite app_length.
+  pose proof (bg_voxel_len c Hv) as L. unfold zlen in L. lia.
+Qed.
+
+(* byte ch of voxel number K of a buffer tiled with the background voxel *)
+Lemma nthZ_bg_tile c n K ch : 0 <= K < n -> 0 <= ch < bpv c -> nthZ (bg_tile c n) (K * bpv c + ch) = bg_at c ch.
+Proof.
+  intros HK Hc. unfold bg_tile. assert (Hn : (Z.to_nat K < Z.to_nat n)%nat) by lia.
+  rewrite <- (Z2Nat.id K) by lia. revert Hn. generalize (Z.to_nat n) as m. generalize (Z.to_nat K) as k.
+  induction k as [|k IH]; intros [|m] Hm; try lia; cbn [repeat concat].
+  - rewrite nthZ_app_l by (rewrite bg_voxel_len; lia). replace (Z.of_nat 0 * bpv c + ch) with ch by lia. apply nthZ_bg_voxel. exact Hc.
+  - rewrite nthZ_app_r by (rewrite bg_voxel_len; nia). rewrite bg_voxel_len by lia.
+    replace (Z.of_nat (Datatypes.S k) * bpv c + ch - bpv c) with (Z.of_nat k * bpv c + ch) by lia. apply IH. lia.
+Qed.
+
+Lemma background_block_len c : cfg_ok c -> zlen (background_block c) = block_bytes c.
+Proof.
+  intros (Kx & Ky & Kz & Hv). unfold background_block, block_bytes. apply bg_tile_len; [lia|].
+  unfold block_voxels. repeat apply Z.mul_nonneg_nonneg; lia.
+Qed.
+
+Lemma scaled_block_len att v : zlen (scaled_block att v) = zlen v.
+Proof. unfold scaled_block, zlen. now rewrite map_length. Qed.
+
+(* what a read shows for byte ch of voxel p, given which blocks are flagged "inside the ROI":
+   nothing if the block is not stored; the stored byte inside; outside the background, or with
+   attenuation the stored byte shifted (one-byte voxels; wider ones are skipped) *)
+Definition view_byte (c : cfg) (st : bstore) (f : pt -> bool) (att : Z) (p : pt) (ch : Z) : option N :=
+  let b := block_of (bsz c) p in
+  let k := bidx c (pminus p (bmin c b)) + ch in
+  match st_get st b with
+  | None => None
+  | Some blk =>
+    if f b then Some (nthZ blk k)
+    else if att =? 0 then Some (nthZ (background_block c) k)
+    else if bpv c =? 1 then Some (nthZ (scaled_block att blk) k) else None
+  end.
+
+(* GetVoxels over blocks that all meet the geometry: a voxel whose block is listed gets what
+   view_byte says, every other voxel (and every voxel view_byte is silent about) keeps what the
+   buffer held *)
+Lemma get_blocks_into_spec c g stride st f att : cfg_ok c -> geom_ok g -> stride_ok c g stride -> store_ok c st ->
   forall bl data, data_len_ok c g stride data -> (forall b, In b bl -> meets g (bsz c) b) ->
-  exists d', get_blocks_into c g stride st data (map (fun b => (b, true)) bl) = Ok d' /\ zlen d' = zlen data
+  exists d', get_blocks_into c g stride st att data (map (fun b => (b, f b)) bl) = Ok d' /\ zlen d' = zlen data
     /\ forall p ch, in_geom g p -> 0 <= ch < bpv c ->
          nthZ d' (pos c g stride p ch)
-         = match (if listed (block_of (bsz c) p) bl then stored_byte c st p ch else None) with
+         = match (if listed (block_of (bsz c) p) bl then view_byte c st f att p ch else None) with
            | Some v => v
            | None => nthZ data (pos c g stride p ch)
            end.
@@ -641,24 +695,41 @@ Proof.
   intros Hc Hg Hs Hst. induction bl as [|b t IH]; intros data Hd Hm; cbn [map get_blocks_into].
   - exists data. split; [reflexivity|]. split; [reflexivity|]. intros p ch Hp Hch. reflexivity.
   - assert (Hm' : forall b0, In b0 t -> meets g (bsz c) b0) by (intros; apply Hm; now right).
-    destruct (st_get st b) as [v|] eqn:Eb.
-    + destruct (block_xfer c g stride b data v Hc Hg (Hm b (or_introl eq_refl)) Hs Hd (Hst b v Eb)) as ((d1 & E1 & L1 & P1 & Q1) & _).
-      rewrite E1. destruct (IH d1 (data_len_ok_ext _ _ _ _ _ L1 Hd) Hm') as (d' & E & L & P).
-      exists d'. split; [exact E|]. split; [lia|]. intros p ch Hp Hch. rewrite (P p ch Hp Hch).
-      unfold listed. cbn [existsb]. fold (listed (block_of (bsz c) p) t).
-      destruct (pt_eqb (block_of (bsz c) p) b) eqn:Ep; cbn [orb].
-      * apply pt_eqb_true in Ep. unfold stored_byte. rewrite Ep, Eb.
-        destruct (listed b t); [reflexivity|].
-        unfold pos. apply P1; [|assumption]. apply in_part_iff; [assumption|]. split; assumption.
-      * assert (U : nthZ d1 (pos c g stride p ch) = nthZ data (pos c g stride p ch)); [|rewrite U; reflexivity].
-        apply Q1. intros p' ch' Hp' Hch' E'. apply in_part_iff in Hp' as (Hg' & Hb'); [|assumption].
-        destruct (didx_inj c g stride p p' ch ch' Hc Hg Hs Hp Hg' Hch Hch' E') as (-> & _).
-        assert (pt_eqb (block_of (bsz c) p') b = true) by (apply pt_eqb_true; assumption). congruence.
-    + destruct (IH data Hd Hm') as (d' & E & L & P).
+    assert (Skip : (forall p ch, block_of (bsz c) p = b -> view_byte c st f att p ch = None) ->
+              exists d', get_blocks_into c g stride st att data (map (fun b => (b, f b)) t) = Ok d' /\ zlen d' = zlen data
+                /\ forall p ch, in_geom g p -> 0 <= ch < bpv c ->
+                   nthZ d' (pos c g stride p ch)
+                   = match (if listed (block_of (bsz c) p) (b :: t) then view_byte c st f att p ch else None) with
+                     | Some v => v | None => nthZ data (pos c g stride p ch) end).
+    { intros Hnone. destruct (IH data Hd Hm') as (d' & E & L & P).
       exists d'. split; [exact E|]. split; [exact L|]. intros p ch Hp Hch. rewrite (P p ch Hp Hch).
       unfold listed. cbn [existsb]. fold (listed (block_of (bsz c) p) t).
       destruct (pt_eqb (block_of (bsz c) p) b) eqn:Ep; cbn [orb]; [|reflexivity].
-      apply pt_eqb_true in Ep. unfold stored_byte. rewrite Ep, Eb. destruct (listed b t); reflexivity.
+      apply pt_eqb_true in Ep. rewrite (Hnone p ch Ep). destruct (listed (block_of (bsz c) p) t); reflexivity. }
+    destruct (st_get st b) as [v|] eqn:Eb.
+    + destruct (negb (f b) && negb (att =? 0) && negb (bpv c =? 1)) eqn:Sk.
+      * apply Skip. intros p ch Ep. unfold view_byte. rewrite Ep, Eb.
+        destruct (f b); [discriminate|]. destruct (att =? 0); [discriminate|]. destruct (bpv c =? 1); [discriminate|reflexivity].
+      * set (blk := if f b then v else if att =? 0 then background_block c else scaled_block att v).
+        assert (Lb : zlen blk = block_bytes c).
+        { unfold blk. destruct (f b); [exact (Hst b v Eb)|]. destruct (att =? 0); [apply background_block_len; assumption|].
+          rewrite scaled_block_len. exact (Hst b v Eb). }
+        destruct (block_xfer c g stride b data blk Hc Hg (Hm b (or_introl eq_refl)) Hs Hd Lb) as ((d1 & E1 & L1 & P1 & Q1) & _).
+        rewrite E1. destruct (IH d1 (data_len_ok_ext _ _ _ _ _ L1 Hd) Hm') as (d' & E & L & P).
+        exists d'. split; [exact E|]. split; [lia|]. intros p ch Hp Hch. rewrite (P p ch Hp Hch).
+        unfold listed. cbn [existsb]. fold (listed (block_of (bsz c) p) t).
+        destruct (pt_eqb (block_of (bsz c) p) b) eqn:Ep; cbn [orb].
+        -- apply pt_eqb_true in Ep.
+           assert (V : view_byte c st f att p ch = Some (nthZ blk (bidx c (pminus p (bmin c b)) + ch))).
+           { unfold view_byte. rewrite Ep, Eb. unfold blk. destruct (f b); [reflexivity|].
+             destruct (att =? 0); [reflexivity|]. destruct (bpv c =? 1); [reflexivity|]. discriminate Sk. }
+           rewrite V. destruct (listed (block_of (bsz c) p) t); [reflexivity|].
+           unfold pos. apply P1; [|assumption]. apply in_part_iff; [assumption|]. split; assumption.
+        -- assert (U : nthZ d1 (pos c g stride p ch) = nthZ data (pos c g stride p ch)); [|rewrite U; reflexivity].
+           apply Q1. intros p' ch' Hp' Hch' E'. apply in_part_iff in Hp' as (Hg' & Hb'); [|assumption].
+           destruct (didx_inj c g stride p p' ch ch' Hc Hg Hs Hp Hg' Hch Hch' E') as (-> & _).
+           assert (pt_eqb (block_of (bsz c) p') b = true) by (apply pt_eqb_true; assumption). congruence.
+    + apply Skip. intros p ch Ep. unfold view_byte. now rewrite Ep, Eb.
 Qed.
 
 (* ---- block iteration ---- *)
@@ -676,12 +747,15 @@ Proof.
   unfold iter_valid. rewrite Ea, Eb. now rewrite (zyx_order_l cur endb a b H1 H2 Ea Eb).
 Qed.
 
+Definition yz_lt (a b : Z * Z) : Prop := snd a < snd b \/ (snd a = snd b /\ fst a < fst b).
+
 Lemma iter_spans_spec bb eb : blk_small bb -> blk_small eb -> px bb <= px eb -> py bb <= py eb -> pz bb <= pz eb ->
   forall fuel y z, py bb <= y <= py eb -> pz bb <= z <= pz eb + 1 -> (z = pz eb + 1 -> y = py bb) ->
   (pz eb - z) * (py eb - py bb + 1) + (py eb - y + 1) < Z.of_nat fuel ->
   exists l, iter_spans fuel y z bb eb = Some l
-    /\ forall y' z', In (y', z') l <->
-         (py bb <= y' <= py eb /\ pz bb <= z' <= pz eb /\ (z < z' \/ (z = z' /\ y <= y'))).
+    /\ (forall y' z', In (y', z') l <->
+         (py bb <= y' <= py eb /\ pz bb <= z' <= pz eb /\ (z < z' \/ (z = z' /\ y <= y'))))
+    /\ StronglySorted yz_lt l.
 Proof.
   intros Sb Se Hx Hy Hz. induction fuel as [|f IH]; intros y z Ry Rz Rt Rf.
   - exfalso. assert (0 <= (pz eb - z) * (py eb - py bb + 1) + (py eb - y + 1)); [|lia].
@@ -700,15 +774,19 @@ Proof.
     + rewrite (w32_small (y + 1)) by (unfold blk_small in *; lia).
       destruct (Z.ltb_spec (py eb) (y + 1)) as [Wrap|Next].
       * rewrite (w32_small (z + 1)) by (unfold blk_small in *; lia).
-        destruct (IH (py bb) (z + 1)) as (l & E & M); try lia.
-        rewrite E. eexists. split; [reflexivity|]. intros y' z'. cbn [In]. rewrite M.
-        split; [intros [X|X]; [inversion X; lia|lia]|intro X].
-        destruct (Z.eq_dec z z'); [left; f_equal; lia|right; lia].
-      * destruct (IH (y + 1) z) as (l & E & M); try lia.
-        rewrite E. eexists. split; [reflexivity|]. intros y' z'. cbn [In]. rewrite M.
-        split; [intros [X|X]; [inversion X; lia|lia]|intro X].
-        destruct (Z.eq_dec z z'); [destruct (Z.eq_dec y y'); [left; congruence|right; lia]|right; lia].
-    + exists []. split; [reflexivity|]. intros y' z'. cbn [In]. lia.
+        destruct (IH (py bb) (z + 1)) as (l & E & M & SS); try lia.
+        rewrite E. eexists. split; [reflexivity|]. split.
+        { intros y' z'. cbn [In]. rewrite M.
+          split; [intros [X|X]; [inversion X; lia|lia]|intro X].
+          destruct (Z.eq_dec z z'); [left; f_equal; lia|right; lia]. }
+        constructor; [exact SS|]. apply Forall_forall. intros [y' z'] Hin. apply M in Hin. unfold yz_lt; cbn [fst snd]. lia.
+      * destruct (IH (y + 1) z) as (l & E & M & SS); try lia.
+        rewrite E. eexists. split; [reflexivity|]. split.
+        { intros y' z'. cbn [In]. rewrite M.
+          split; [intros [X|X]; [inversion X; lia|lia]|intro X].
+          destruct (Z.eq_dec z z'); [destruct (Z.eq_dec y y'); [left; congruence|right; lia]|right; lia]. }
+        constructor; [exact SS|]. apply Forall_forall. intros [y' z'] Hin. apply M in Hin. unfold yz_lt; cbn [fst snd]. lia.
+    + exists []. split; [reflexivity|]. split; [intros y' z'; cbn [In]; lia|constructor].
 Qed.
 
 Lemma span_blocks_in bx ex y z b : In b (span_blocks bx ex y z) <-> (py b = y /\ pz b = z /\ bx <= px b <= ex).
@@ -756,9 +834,30 @@ Proof.
   rewrite (meets1_iff kx bx ox sx), (meets1_iff ky by_ oy sy), (meets1_iff kz bz oz sz) by lia. reflexivity.
 Qed.
 
+Lemma SSapp {A} (R : A -> A -> Prop) a b :
+  StronglySorted R a -> StronglySorted R b -> (forall x y, In x a -> In y b -> R x y) -> StronglySorted R (a ++ b).
+Proof.
+  induction 1 as [|h t Ht IH Hh]; intros Sb C; cbn [app]; [exact Sb|].
+  constructor; [apply IH; [exact Sb|intros; apply C; [now right|assumption]]|].
+  apply Forall_app. split; [exact Hh|]. apply Forall_forall. intros y Hy. apply C; [now left|assumption].
+Qed.
+
+Lemma span_blocks_sorted bx ex sp : StronglySorted yz_lt sp ->
+  StronglySorted pt_zyx_le (flat_map (fun yz => span_blocks bx ex (fst yz) (snd yz)) sp).
+Proof.
+  induction 1 as [|[y z] t St IH Ft]; cbn [flat_map]; [constructor|]. apply SSapp; [|exact IH|].
+  - unfold span_blocks. cbn [fst snd]. generalize (Z.to_nat (ex - bx + 1)) as n. generalize 0%nat as k.
+    intros k n. revert k. induction n as [|n IHn]; intro k; cbn [seq map]; [constructor|].
+    constructor; [apply IHn|]. apply Forall_forall. intros q Hq. apply in_map_iff in Hq as (i & <- & Hi). apply in_seq in Hi.
+    unfold pt_zyx_le, px, py, pz; cbn [fst snd]. lia.
+  - intros a b Ha Hb. apply span_blocks_in in Ha. cbn [fst snd] in Ha. apply in_flat_map in Hb as ([y' z'] & Hs & Hb).
+    apply span_blocks_in in Hb. cbn [fst snd] in Hb. rewrite Forall_forall in Ft. specialize (Ft _ Hs).
+    unfold yz_lt in Ft; cbn [fst snd] in Ft. unfold pt_zyx_le. lia.
+Qed.
+
 (* the blocks GetVoxels / PutVoxels visit: exactly those that meet the geometry *)
 Lemma geom_blocks_spec c g : cfg_ok c -> geom_ok g ->
-  exists bl, geom_blocks c g = Ok bl /\ forall b, In b bl <-> meets g (bsz c) b.
+  exists bl, geom_blocks c g = Ok bl /\ (forall b, In b bl <-> meets g (bsz c) b) /\ StronglySorted pt_zyx_le bl.
 Proof.
   intros Hc Hg. pose proof (size3_pos g Hg) as S3. unfold geom_blocks. rewrite g_end_eq by assumption.
   assert (Hb : bsize_ok (bsz c)) by (destruct Hc as (A & B & C & _); unfold bsize_ok; lia).
@@ -775,8 +874,8 @@ Proof.
   assert (Fuel : (pz eb - pz bb) * (py eb - py bb + 1) + (py eb - py bb + 1)
                  < Z.of_nat (Datatypes.S (Z.to_nat ((py eb - py bb + 1) * (pz eb - pz bb + 1))))).
   { rewrite Nat2Z.inj_succ, Z2Nat.id by exact N0. lia. }
-  destruct (iter_spans_spec bb eb Sb Se' Hx Hy Hz _ (py bb) (pz bb) ltac:(lia) ltac:(lia) ltac:(lia) Fuel) as (sp & E & M).
-  rewrite E. eexists. split; [reflexivity|]. intro b.
+  destruct (iter_spans_spec bb eb Sb Se' Hx Hy Hz _ (py bb) (pz bb) ltac:(lia) ltac:(lia) ltac:(lia) Fuel) as (sp & E & M & SSp).
+  rewrite E. eexists. split; [reflexivity|]. split; [|apply span_blocks_sorted; exact SSp]. intro b.
   rewrite (meets_iff c g b Hc Hg). fold bb eb. rewrite in_flat_map. split.
   - intros ([y z] & Hs & Hin). apply M in Hs. apply span_blocks_in in Hin. cbn [fst snd] in Hin.
     unfold in_range. lia.
@@ -790,25 +889,27 @@ Proof. revert k. induction n as [|n IH]; intros [|k] H; cbn; try lia; [reflexivi
 Lemma nthZ_repeat x n k : 0 <= k < Z.of_nat n -> nthZ (repeat x n) k = x.
 Proof. intro H. unfold nthZ. replace (k <? 0) with false by lia. apply nth_repeat_lt. lia. Qed.
 
-Lemma pos_bound c g p ch : cfg_ok c -> geom_ok g -> in_geom g p -> 0 <= ch < bpv c ->
-  0 <= pos c g (gw g * bpv c) p ch < bpv c * g_numvoxels g.
+(* the buffer position of a voxel is its ordinal in the request times the voxel width *)
+Lemma pos_voxel c g p ch : cfg_ok c -> geom_ok g -> in_geom g p -> 0 <= ch < bpv c ->
+  exists K, 0 <= K < g_numvoxels g /\ pos c g (gw g * bpv c) p ch = K * bpv c + ch.
 Proof.
-  destruct c as [[[kx ky] kz] v bg]. destruct g as [sh [[ox oy] oz] w h d]. destruct p as [[x y] z].
+  destruct c as [[[kx ky] kz] v bg pat fx]. destruct g as [sh [[ox oy] oz] w h d]. destruct p as [[x y] z].
   intros (_ & _ & _ & Hv) (Ho & Hw & Hh & Hd).
   unfold pos, in_geom, in_range, gend, g_size3, g_numvoxels, didx, pminus, px, py, pz in *; cbn [fst snd bsz bpv gshape goff gw gh gd] in *.
   destruct sh; cbn [fst snd]; intros Hp Hc.
-  - pose proof (chan_bound (x - ox) ch w v ltac:(lia) Hc) as B1.
-    pose proof (chan_bound (y - oy) ((x - ox) * v + ch) h (w * v) ltac:(lia) B1). lia.
-  - pose proof (chan_bound (x - ox) ch w v ltac:(lia) Hc) as B1.
-    pose proof (chan_bound (z - oz) ((x - ox) * v + ch) h (w * v) ltac:(lia) B1). lia.
-  - pose proof (chan_bound (y - oy) ch w v ltac:(lia) Hc) as B1.
-    pose proof (chan_bound (z - oz) ((y - oy) * v + ch) h (w * v) ltac:(lia) B1). lia.
-  - pose proof (chan_bound (x - ox) ch w v ltac:(lia) Hc) as B1.
-    pose proof (chan_bound (y - oy) ((x - ox) * v + ch) h (w * v) ltac:(lia) B1) as B2.
-    pose proof (chan_bound (z - oz) ((y - oy) * (w * v) + ((x - ox) * v + ch)) d (h * (w * v)) ltac:(lia) B2). lia.
+  - exists ((y - oy) * w + (x - ox)). split; [|ring].
+    pose proof (chan_bound (y - oy) (x - ox) h w ltac:(lia) ltac:(lia)). lia.
+  - exists ((z - oz) * w + (x - ox)). split; [|ring].
+    pose proof (chan_bound (z - oz) (x - ox) h w ltac:(lia) ltac:(lia)). lia.
+  - exists ((z - oz) * w + (y - oy)). split; [|ring].
+    pose proof (chan_bound (z - oz) (y - oy) h w ltac:(lia) ltac:(lia)). lia.
+  - exists (((z - oz) * h + (y - oy)) * w + (x - ox)). split; [|ring].
+    pose proof (chan_bound (z - oz) (y - oy) d h ltac:(lia) ltac:(lia)) as B1.
+    pose proof (chan_bound ((z - oz) * h + (y - oy)) (x - ox) (d * h) w B1 ltac:(lia)). lia.
 Qed.
 
-Definition init_byte (fill : bool) (c : cfg) : N := if fill then bg_byte c else 0%N.
+(* what NewVoxels leaves in byte ch of every voxel: the background once the buffer is preset *)
+Definition init_at (fill : bool) (c : cfg) (ch : Z) : N := if fill then bg_at c ch else 0%N.
 
 Lemma numvoxels_pos g : geom_ok g -> 1 <= g_numvoxels g.
 Proof. intros (_ & Hw & Hh & Hd). unfold g_numvoxels. destruct (gshape g); nia. Qed.
@@ -821,9 +922,40 @@ Lemma new_buffer_len fill c g : cfg_ok c -> geom_ok g ->
 Proof.
   intros Hc Hg. pose proof (numvoxels_pos g Hg). destruct Hc as (_ & _ & _ & Hv).
   assert (L : zlen (new_buffer fill c g) = bpv c * g_numvoxels g).
-  { unfold new_buffer, zlen. rewrite repeat_length. nia. }
+  { unfold new_buffer. destruct fill; [rewrite bg_tile_len by lia; lia|]. unfold zlen. rewrite repeat_length. nia. }
   split; [exact L|]. unfold data_len_ok. rewrite L. unfold g_numvoxels. destruct (gshape g); lia.
 Qed.
+
+Lemma new_buffer_at fill c g p ch : cfg_ok c -> geom_ok g -> in_geom g p -> 0 <= ch < bpv c ->
+  nthZ (new_buffer fill c g) (pos c g (gw g * bpv c) p ch) = init_at fill c ch.
+Proof.
+  intros Hc Hg Hp Hch. destruct (pos_voxel c g p ch Hc Hg Hp Hch) as (K & HK & E). rewrite E.
+  unfold new_buffer, init_at. destruct fill; [apply nthZ_bg_tile; assumption|].
+  apply nthZ_repeat. destruct Hc as (_ & _ & _ & Hv). nia.
+Qed.
+
+(* the blocks visited, each flagged by f, as GetVoxels sees them for a request with flags f *)
+Lemma get_flagged_ok fill c s g f att : cfg_ok c -> geom_ok g -> store_ok c (blocks s) ->
+  forall bl, (forall b, In b bl <-> meets g (bsz c) b) ->
+  exists buf, get_blocks_into c g (gw g * bpv c) (blocks s) att (new_buffer fill c g) (map (fun b => (b, f b)) bl) = Ok buf
+    /\ zlen buf = bpv c * g_numvoxels g
+    /\ forall p ch, in_geom g p -> 0 <= ch < bpv c ->
+         nthZ buf (pos c g (gw g * bpv c) p ch)
+         = match view_byte c (blocks s) f att p ch with Some v => v | None => init_at fill c ch end.
+Proof.
+  intros Hc Hg Hst bl M. destruct (new_buffer_len fill c g Hc Hg) as (L0 & D0).
+  destruct (get_blocks_into_spec c g (gw g * bpv c) (blocks s) f att Hc Hg (stride_ok_exact c g Hc Hg) Hst bl
+              (new_buffer fill c g) D0 (fun b Hb => proj1 (M b) Hb)) as (d' & E' & L' & P').
+  exists d'. split; [exact E'|]. split; [lia|]. intros p ch Hp Hch. rewrite (P' p ch Hp Hch).
+  assert (Li : listed (block_of (bsz c) p) bl = true).
+  { unfold listed. apply existsb_exists. exists (block_of (bsz c) p). split.
+    - apply M. apply meets_of_voxel; assumption.
+    - apply pt_eqb_true. reflexivity. }
+  rewrite Li. destruct (view_byte c (blocks s) f att p ch); [reflexivity|]. apply new_buffer_at; assumption.
+Qed.
+
+Lemma view_byte_all c st att p ch : view_byte c st (fun _ => true) att p ch = stored_byte c st p ch.
+Proof. unfold view_byte, stored_byte. destruct (st_get st (block_of (bsz c) p)); reflexivity. Qed.
 
 (* GET raw (any geometry, no ROI): every voxel of the request is the stored voxel, or the initial
    byte of the buffer where no block is stored *)
@@ -831,20 +963,87 @@ Lemma get_raw_ok fill c s g : cfg_ok c -> geom_ok g -> store_ok c (blocks s) ->
   exists buf, get_raw fill c s g None = Ok buf /\ zlen buf = bpv c * g_numvoxels g
     /\ forall p ch, in_geom g p -> 0 <= ch < bpv c ->
          nthZ buf (pos c g (gw g * bpv c) p ch)
-         = match stored_byte c (blocks s) p ch with Some v => v | None => init_byte fill c end.
+         = match stored_byte c (blocks s) p ch with Some v => v | None => init_at fill c ch end.
 Proof.
-  intros Hc Hg Hst. unfold get_raw. pose proof (numvoxels_pos g Hg) as Nv.
+  intros Hc Hg Hst. unfold get_raw, get_raw_att. pose proof (numvoxels_pos g Hg) as Nv.
   replace (negb (1 <=? g_numvoxels g)) with false by lia.
-  destruct (geom_blocks_spec c g Hc Hg) as (bl & E & M). rewrite E. cbn [roi_flags].
-  destruct (new_buffer_len fill c g Hc Hg) as (L0 & D0).
-  destruct (get_blocks_into_spec c g (gw g * bpv c) (blocks s) Hc Hg (stride_ok_exact c g Hc Hg) Hst bl
-              (new_buffer fill c g) D0 (fun b Hb => proj1 (M b) Hb)) as (d' & E' & L' & P').
-  exists d'. split; [exact E'|]. split; [lia|]. intros p ch Hp Hch. rewrite (P' p ch Hp Hch).
-  assert (Li : listed (block_of (bsz c) p) bl = true).
-  { unfold listed. apply existsb_exists. exists (block_of (bsz c) p). split.
-    - apply M. apply meets_of_voxel; assumption.
-    - apply pt_eqb_true. reflexivity. }
-  rewrite Li. destruct (stored_byte c (blocks s) p ch); [reflexivity|].
-  unfold new_buffer, init_byte. apply nthZ_repeat. pose proof (pos_bound c g p ch Hc Hg Hp Hch).
-  destruct Hc as (_ & _ & _ & Hv). assert (0 <= bpv c * g_numvoxels g) by nia. lia.
+  destruct (geom_blocks_spec c g Hc Hg) as (bl & E & M & _). rewrite E. cbn [roi_flags].
+  destruct (get_flagged_ok fill c s g (fun _ => true) 0 Hc Hg Hst bl M) as (buf & Eb & Lb & P).
+  exists buf. split; [exact Eb|]. split; [exact Lb|]. intros p ch Hp Hch. rewrite (P p ch Hp Hch). now rewrite view_byte_all.
+Qed.
+
+(* ---- the ROI sweep (roi.Iterator.InsideFast) over the visited blocks ---- *)
+Definition span_wf (s : span) : Prop := sx0 s <= sx1 s.
+
+Lemma inside_fast_seek b spans : Forall span_wf spans -> inside_fast b spans = seek_span b spans.
+Proof.
+  induction 1 as [|s tl Hs Ht IH]; [reflexivity|]. cbn [inside_fast seek_span].
+  unfold span_wf in Hs. unfold span_less_pt, span_includes.
+  destruct (Z.ltb_spec (pz b) (sz s)).
+  { replace (sz s <? pz b) with false by lia. replace (sz s =? pz b) with false by lia. reflexivity. }
+  destruct (Z.ltb_spec (sz s) (pz b)); [exact IH|].
+  destruct (Z.ltb_spec (py b) (sy s)).
+  { replace (sy s <? py b) with false by lia. replace (sy s =? py b) with false by lia. now rewrite andb_false_r. }
+  destruct (Z.ltb_spec (sy s) (py b)); [exact IH|].
+  destruct (Z.ltb_spec (px b) (sx0 s)).
+  { replace (sx1 s <? px b) with false by lia. replace (sx0 s <=? px b) with false by lia. now rewrite andb_false_r. }
+  destruct (Z.leb_spec (px b) (sx1 s)).
+  { replace (sx1 s <? px b) with false by lia. f_equal. lia. }
+  replace (sx1 s <? px b) with true by lia. exact IH.
+Qed.
+
+Lemma roi_filter_spec all : forall bl cur passed,
+  all = passed ++ cur -> Forall span_wf cur -> spans_sorted cur -> StronglySorted pt_zyx_le bl ->
+  Forall (fun b => Forall (fun s => span_less_pt s b = true) passed) bl ->
+  roi_filter cur bl = map (fun b => (b, in_spans b all)) bl.
+Proof.
+  induction bl as [|b t IH]; intros cur passed E Wf Sc Sb Fp; cbn [roi_filter map]; [reflexivity|].
+  rewrite (inside_fast_seek b cur Wf).
+  destruct (seek_span_spec b cur Sc) as (sk & Ecur & Fsk & Einc & Sc').
+  destruct (seek_span b cur) as [cur' inc]. cbn [fst snd] in *.
+  apply StronglySorted_inv in Sb as (Sb' & Fb). pose proof (Forall_inv Fp) as Fpb. pose proof (Forall_inv_tail Fp) as Fpt.
+  f_equal.
+  - f_equal. rewrite Einc, E, in_spans_app, (in_spans_less b passed Fpb). reflexivity.
+  - apply (IH cur' (passed ++ sk)).
+    + rewrite <- app_assoc, <- Ecur. exact E.
+    + rewrite Ecur, Forall_app in Wf. tauto.
+    + exact Sc'.
+    + exact Sb'.
+    + rewrite Forall_forall in *. intros q Hq. apply Forall_app. split; [apply Fpt; assumption|].
+      rewrite Forall_forall. intros s Hs. eapply less_mono; [apply (Fb q Hq)|]. auto.
+Qed.
+
+(* for sorted well-formed spans the sweep flags exactly the blocks of the span set *)
+Lemma roi_flags_ok spans bl : Forall span_wf spans -> spans_sorted spans -> StronglySorted pt_zyx_le bl ->
+  roi_flags (Some spans) bl = map (fun b => (b, in_spans b spans)) bl.
+Proof.
+  intros Wf Ss Sb. cbn [roi_flags]. apply (roi_filter_spec spans bl spans []); try assumption; [reflexivity|].
+  apply Forall_forall. intros; constructor.
+Qed.
+Lemma roi_flags_none bl : roi_flags None bl = map (fun b => (b, true)) bl.
+Proof. reflexivity. Qed.
+
+Definition roi_test (roi : option (list span)) (b : pt) : bool :=
+  match roi with None => true | Some spans => in_spans b spans end.
+Definition roi_wf (roi : option (list span)) : Prop :=
+  match roi with None => True | Some spans => Forall span_wf spans /\ spans_sorted spans end.
+
+Lemma roi_flags_test roi bl : roi_wf roi -> StronglySorted pt_zyx_le bl ->
+  roi_flags roi bl = map (fun b => (b, roi_test roi b)) bl.
+Proof. destruct roi as [spans|]; [intros (Wf & Ss) Sb; now apply roi_flags_ok|reflexivity]. Qed.
+
+(* GET raw with an optional ROI and attenuation: inside the ROI the stored voxel; outside the
+   background, or the stored byte shifted right (one-byte voxels); where no block is stored the
+   background *)
+Lemma get_raw_roi_ok fill c s g roi att : cfg_ok c -> geom_ok g -> store_ok c (blocks s) -> roi_wf roi ->
+  exists buf, get_raw_att fill c s g roi att = Ok buf /\ zlen buf = bpv c * g_numvoxels g
+    /\ forall p ch, in_geom g p -> 0 <= ch < bpv c ->
+         nthZ buf (pos c g (gw g * bpv c) p ch)
+         = match view_byte c (blocks s) (roi_test roi) att p ch with Some v => v | None => init_at fill c ch end.
+Proof.
+  intros Hc Hg Hst Hr. unfold get_raw_att. pose proof (numvoxels_pos g Hg) as Nv.
+  replace (negb (1 <=? g_numvoxels g)) with false by lia.
+  destruct (geom_blocks_spec c g Hc Hg) as (bl & E & M & Sb). rewrite E.
+  rewrite (roi_flags_test roi bl Hr Sb).
+  exact (get_flagged_ok fill c s g (roi_test roi) att Hc Hg Hst bl M).
 Qed.
